@@ -151,7 +151,7 @@ def extract_function_types(  # type: ignore
         if (param.name, param.annotation) not in VALID_OPTIONAL_ARGS:
             raise type_error_with_line_info(
                 func,
-                f'"{param.name}: {param.annotation.__name__}" is not a valid service',  # noqa: E501
+                f'"{param.name}: {type_name(param.annotation)}" is not a valid service',  # noqa: E501
             )
 
     match node_param:
@@ -160,7 +160,7 @@ def extract_function_types(  # type: ignore
                 if ty not in VALID_NODE_TYPES:
                     raise type_error_with_line_info(
                         func,
-                        f'"{ty.__name__}" is not a valid Mypy node type',
+                        f'"{type_name(ty)}" is not a valid Mypy node type',
                     )
 
                 yield ty
@@ -171,8 +171,13 @@ def extract_function_types(  # type: ignore
         case _:
             raise type_error_with_line_info(
                 func,
-                f'"{ty.__name__}" is not a valid Mypy node type',
+                f'"{type_name(ty)}" is not a valid Mypy node type',
             )
+
+
+def type_name(ty: Any) -> str:  # type: ignore
+    # An annotation can be anything: a string (forward reference) has no name
+    return getattr(ty, "__name__", None) or str(ty)
 
 
 def load_checks(settings: Settings) -> defaultdict[type[Node], list[Check]]:
